@@ -241,6 +241,17 @@ func (matrix *DenseIntMatrix) Tip() {
   matrix.rowMax, matrix.colMax = matrix.colMax, matrix.rowMax
 }
 func (matrix *DenseIntMatrix) AsVector() Vector {
+  if matrix.rows*matrix.cols != len(matrix.values) {
+    // the matrix is a slice of a larger matrix, copy its elements
+    n, m := matrix.Dims()
+    v := make([]int, n*m)
+    for i := 0; i < n; i++ {
+      for j := 0; j < m; j++ {
+        v[i*m + j] = matrix.values[matrix.index(i, j)]
+      }
+    }
+    return DenseIntVector(v)
+  }
   return DenseIntVector(matrix.values)
 }
 func (matrix *DenseIntMatrix) storageLocation() uintptr {
@@ -334,6 +345,17 @@ func (matrix *DenseIntMatrix) IsSymmetric(epsilon float64) bool {
   return true
 }
 func (matrix *DenseIntMatrix) AsConstVector() ConstVector {
+  if matrix.rows*matrix.cols != len(matrix.values) {
+    // the matrix is a slice of a larger matrix, copy its elements
+    n, m := matrix.Dims()
+    v := make([]int, n*m)
+    for i := 0; i < n; i++ {
+      for j := 0; j < m; j++ {
+        v[i*m + j] = matrix.values[matrix.index(i, j)]
+      }
+    }
+    return DenseIntVector(v)
+  }
   return DenseIntVector(matrix.values)
 }
 /* implement ScalarContainer
